@@ -732,7 +732,9 @@ func c19BodyCBDef(c *run.Ctx) {
 		}
 	}
 	// hand-written path-context cases (the first two are the D7 reproductions)
-	one := func(beh string, iter bool) []c19Reg { return []c19Reg{{Name: "f", Min: 0, Max: 2, Iter: iter, Beh: beh}} }
+	one := func(beh string, iter bool) []c19Reg {
+		return []c19Reg{{Name: "f", Min: 0, Max: 2, Iter: iter, Beh: beh}}
+	}
 	obj := O{"a": O{"b": 1}, "c": A{1, 2}}
 	for _, h := range []struct {
 		regs []c19Reg
